@@ -132,6 +132,15 @@ func (fr *Frame) externalHavoc(f *ssa.Function, args []Val, ms *ModSet) {
 		if a.Typ == nil {
 			continue
 		}
+		if a.Boxed != nil && a.Boxed.Typ != nil {
+			a = *a.Boxed // an interface argument whose concrete value is known: the callee may write through it
+		} else if types.IsInterface(a.Typ) {
+			// opaque interface argument: the callee may reach arbitrary memory outside the tracked universe
+			if len(vc.e.universe) > 0 {
+				vc.havocExcept(&fr.heap, vc.e.universe)
+			}
+			continue
+		}
 		switch t := a.Typ.Underlying().(type) {
 		case *types.Slice:
 			vc.elemLoc(t.Elem(), "0", "0")
